@@ -6,7 +6,7 @@
 # (tools/seed_final.sh).
 ID="$1"; shift
 CHECKS="$@"
-E=/tmp/eval
+E=${EVALDIR:-/tmp/eval}
 mkdir -p $E/out
 HEAD=$(git -C /repo rev-parse HEAD)
 if [ ! -d $E/repo ]; then git -C /repo worktree add -q --detach $E/repo $HEAD; else git -C $E/repo checkout -q -- . ; git -C $E/repo checkout -q --detach $HEAD; fi
